@@ -59,6 +59,7 @@ func checkC15(r *Report) {
 	nIC := interpolateCoverRule(r, p, "C15.e/INTERPOLATE-COVER", "Dependency")
 	r.floor("C15.e/INTERPOLATE-COVER", "interpolatable fields reachable from maven.Dependency", nIC, 9)
 	allCriteriaRule(r, p, "C15.f/ALL-CRITERIA")
+	importKeyRule(r, p, "C15.g/IMPORT-KEY-VERSION")
 }
 
 // declaredWinsRule: when ProcessDependencies injects dependency management
